@@ -7,7 +7,7 @@ from harness import pipeline as PL, solver as S
 
 SPEC = {
     "gen": ["Rotations", "GetHkl"],
-    "modules": ["DiffcalcProofs.Props.C01", "DiffcalcProofs.Props.C01Sample"],
+    "modules": ["DiffcalcProofs.Props.C01", "DiffcalcProofs.Props.C01Sample", "DiffcalcProofs.Props.C01Detector", "DiffcalcProofs.Props.C01Assembly"],
     "theorems": {"DiffcalcProofs.Props.C01": [
         "C01.getPosition_guard", "C01.getPosition_pairs_virtualAngles", "C01.guard_forward_model", "C01.composition",
         "C01.detFromQaz_sound", "C01.threeSample_detector_sound", "C01.twoSampleAndReference_detector_sound"],
@@ -20,7 +20,9 @@ SPEC = {
         "C01.sampleConEtaPhi_sound", "C01.sampleConEtaChi_sound", "C01.twoSampleDetector_sound",
         "C01.rot_eq_of_row2_col1", "C01.rot_eq_of_row1_col1", "C01.phiAndQaz_sound", "C01.chiAndQaz_sound", "C01.refConChiPhi_sound", "C01.refConMuEta_sound",
         "C01.refConChiEta_sound", "C01.refConChiMu_sound", "C01.refConMuPhi_sound", "C01.refConEtaPhi_sound", "C01.twoSampleReference_sound",
-        "C01.lastSampleAngle_sound", "C01.qazValue_sound", "C01.threeSample_sample_sound"]},
+        "C01.lastSampleAngle_sound", "C01.qazValue_sound", "C01.threeSample_sample_sound"],
+        "DiffcalcProofs.Props.C01Detector": ["C01.eq_of_sq_eq_of_sign", "C01.detFromDelta_sound", "C01.detFromNu_sound", "C01.detRemaining_sound"],
+        "DiffcalcProofs.Props.C01Assembly": ["C01.ttheta_eq", "C01.detSamp2_qaz_exact", "C01.detSamp2_exact"]},
     "level": "proof",
     "rule": "all 185 implemented modes x requests built from random physical positions over (-180,180]^6 (so that solutions exist), oblique "
             "cells, rotated U, hkl- and lab-frame vectors of non-unit length, plus special-value requests (multiples of 30/45/90 deg, axis hkl) and "
